@@ -823,6 +823,55 @@ func (x *gen) charLengthBlock() {
 	}
 }
 
+// zeroToleranceBlock: MaxFailRate is the caller's to set, 0 included ("no failure tolerated"). A
+// recipe without requirements cannot fail, so every one of them — the default recipe, the
+// separator presets — must still be honoured exactly as documented. (Recipes WITH requirements
+// are left out: their failure probability is positive, and whether a float64 underflow to 0 then
+// counts as "not above 0" is nobody's property.)
+func (x *gen) zeroToleranceBlock() {
+	for _, r := range []string{"7/15/0/16/_/-/_", "1/4/0/0/_/-/_", "2/12/0/16/_/-/_", "12/3/0/0/233.955/-/_", "3/0/0/0/97.98.99/-/120"} {
+		tape := make([]uint32, 40)
+		for i := range tape {
+			tape[i] = x.g.u32()
+		}
+		x.emit("charinfo r=%s T=200 fr=0:1", r)
+		x.emit("chargen r=%s T=200 fr=0:1 tape=%s", r, encWords(tape))
+		x.emit("chargen r=%s T=1 fr=0:1 tape=%s", r, encWords(tape))
+	}
+	words := []string{"uno", "dos", "tres", "cuatro"}
+	for _, sp := range []string{"preset:d1", "preset:d2", "preset:dna1", "preset:dna2", "preset:sym", "preset:ds", "preset:none", "recipe:2/8/0/0/_/-/_"} {
+		tape := make([]uint32, 40)
+		for i := range tape {
+			tape[i] = x.g.u32()
+		}
+		x.emit("wlgen words=%s titles=%s L=3 sep=%s cap=%s T=200 fr=0:1 tape=%s", encList(words), encList(wordTitles(words)), sp, encCps("none"), encWords(tape))
+		x.emit("wlent words=%s titles=%s L=3 sep=%s cap=%s T=200 fr=0:1 tape=%s", encList(words), encList(wordTitles(words)), sp, encCps("none"), encWords(tape))
+	}
+}
+
+// cancellationOp: the count as a small difference of huge terms. k one-character required sets at
+// Length k over an alphabet of N characters: exactly k! strings qualify, while the
+// inclusion-exclusion terms are of the order N^k (2^53..2^62 for N around 100..215 and k = 8):
+// any rounding in a term is the whole answer.
+func (x *gen) cancellationOp() {
+	k := 5 + x.g.intn(5)
+	N := 60 + x.g.intn(180)
+	var r recipeSpec
+	r.L = k
+	var ac []rune
+	for i := 0; i < N; i++ {
+		ac = append(ac, rune(0x100+i))
+	}
+	r.ac = string(ac[k:])
+	for i := 0; i < k; i++ {
+		r.rs = append(r.rs, string(ac[i]))
+	}
+	if x.g.chance(30) {
+		r.L = k + 1
+	}
+	x.emit("charinfo r=%s T=1 fr=1:1", r.enc())
+}
+
 func (x *gen) wlnewOp(reps int) {
 	words := x.wordList(true)
 	if x.g.chance(3) {
@@ -1508,6 +1557,7 @@ func generate(prop, tier string, seed uint64) []string {
 		rep(30, x.longCapsOp)
 	case "C07":
 		x.charLengthBlock()
+		rep(12, x.cancellationOp)
 		for i := 0; i < 3; i++ {
 			x.manySetsOp()
 		}
@@ -1550,6 +1600,7 @@ func generate(prop, tier string, seed uint64) []string {
 		rep(500, func() { x.charinfoOp(x.recipe(x.g.intn(4))) })
 		rep(300, func() { x.wlgenOp("wlgen", "") })
 		rep(12, x.collisionPairOps)
+		x.zeroToleranceBlock()
 		x.emit("wlgen words=nil L=3 sep=char:_ cap=_ tape=1.2.3")
 		x.emit("chargen r=0/0/0/0/_/-/_ tape=1.2.3")
 	case "C14":
@@ -1575,6 +1626,7 @@ func generate(prop, tier string, seed uint64) []string {
 		}
 		x.emit("charinfo r=7/15/0/16/_/-/_")
 		x.namedFlagBlock()
+		x.zeroToleranceBlock()
 		for i := 0; i < 4; i++ {
 			x.emit("newcr L=%d", 1+x.g.intn(40))
 			x.emit("newwl L=%d", 1+x.g.intn(12))
@@ -1621,6 +1673,26 @@ func generate(prop, tier string, seed uint64) []string {
 						x.emit("cli argv=%s", encList(args))
 					}
 				}
+			}
+		}
+		// every capitalisation scheme and separator name over word files of every shape (all
+		// capitalisable, mixed, none capitalisable, one word, a lower/Title pair, duplicates) and
+		// the built-in lists, with and without --entropy
+		files := [][]string{{"one", "two", "three"}, {"one", "two", "4"}, {"4", "5", "正確"}, {"solo"}, {"polish", "Polish", "amber"},
+			{"dup", "dup", "other", "dup"}, {"Paris", "rome"}}
+		for _, scheme := range []string{"none", "first", "all", "random", "one", "bogus"} {
+			for fi, ws := range files {
+				sepName := []string{"hyphen", "space", "comma", "period", "underscore", "digit", "none", "bogus"}[(fi+len(scheme))%8]
+				for _, ent := range []bool{true, false} {
+					args := []string{"words", "--file", "@FILE", "--size", fmt.Sprint(1 + (fi+len(scheme))%4), "--capitalize", scheme, "--separator", sepName}
+					if ent {
+						args = append(args, "--entropy")
+					}
+					x.emit("cli argv=%s words=%s titles=%s", encList(args), encList(ws), encList(wordTitles(ws)))
+				}
+			}
+			for _, l := range []string{"words", "syllables"} {
+				x.emit("cli argv=%s", encList([]string{"words", "--list", l, "--size", "3", "--capitalize", scheme, "--entropy"}))
 			}
 		}
 		// word files with one very long word, at three positions, with and without --entropy
